@@ -213,6 +213,28 @@ def commit_rule(ck, F, h, loop):
         ck.ok('CM', 'single commit() at bb%d: after the loop, on every Ok path; %d post-loop blocks touch the reader nowhere else' % (cbb, len(region)), where_of(b, cbb))
 
 
+def picture_start(ck, F):
+    ck.rule('PS', 'decode_picture starts a picture by skipping the stuffing bits recognize_start_code reports plus the 17 start-code bits: with fewer than eight zero bits of '
+                  'padding after the previous picture, the header is read from its first bit')
+    from ..bitslice import Table
+    name = 'h263_rs::parser::picture::decode_picture::{closure#0}'
+    b = F.body(name)
+    T = Table(F, name, stop_at=lambda bb, t: F.callee_name(t).endswith('H263Reader::<R>::read_bits'), paths=True)
+    rows = T.read_rows()
+    rec = [r for r in rows if r[1] == 'recognize_start_code']
+    sk = [r for r in rows if r[1] == 'skip_bits']
+    ok = len(rec) == 1 and len(sk) == 1 and rec[0][0] < sk[0][0]
+    why = 'expected one recognize_start_code followed by one skip_bits before the first field, found %d / %d' % (len(rec), len(sk))
+    if ok:
+        ws = [w for w, c in sk[0][2]]
+        want = 'Add(17, some(r%d or MiddleOfBitstream))' % rec[0][0]
+        alt = 'Add(some(r%d or MiddleOfBitstream), 17)' % rec[0][0]
+        if ws not in ([want], [alt]):
+            ok = False; why = 'skip_bits is given %s, expected 17 + the stuffing count returned by recognize_start_code' % ws
+    if ok: ck.ok('PS', 'decode_picture: skip_bits(17 + recognize_start_code()?) before the first header field', where_of(b))
+    else: ck.violation('PS', 'PS : decode_picture : start', where_of(b), why)
+
+
 def run(ck, F, tier):
     ck.explanation = ('C15 decided structurally on MIR of the decode closure: M7 the macroblock loop is bounded by the macroblock count (exit test '
                       'dominating the macroblock parse); RS the resynchronisation probe is a union transaction whose Ok(None) arm leaves the loop without '
@@ -240,3 +262,4 @@ def run(ck, F, tier):
     # the callers skip `17 + stuffing` bits after recognize_start_code: it must be a pure look-ahead (C14 B) that reports the stuffing count of the 17-bit window (C14 F)
     c14.b_lookahead(s14, F)
     c14.f_start_code(s14, F)
+    picture_start(ck, F)
